@@ -7,7 +7,7 @@ x == <<120>>  ab == <<97, SP, 98>>  acb == <<97, COMMA, SP, 98>>  l12 == <<108, 
 hashline == <<108, 49, LF, HASH, 50>>                   \* "l1\n#2" : a second line that starts with '#' is text
 Rec1 == [S : {<<>>, x, ab, l12, hashline}, Renamed : {<<>>, <<114>>}, Req : {<<>>, <<113>>}, Skip : {<<>>, <<104, 105, 100>>},
          Multi : {<<>>, <<109, 49, LF, 109, 50>>, <<111, 110, 101>>, <<109, 49, LF, SP, HASH, SP, 109, 50, LF, 109, 51>>}]
-Rec2 == [I : {0, 1, -7, 2147483647}, U : {0, 5}, B : BOOLEAN, ReqI : {0, 3}, ReqB : BOOLEAN]
+Rec2 == [I : {0, 1, -7, 2147483647}, U : {0, 5, 1023, 1024, 65536, 2147483647}, B : BOOLEAN, ReqI : {0, 3}, ReqB : BOOLEAN]
 StrLists == {<<>>, <<<<97>>>>, <<<<98, SP, 99>>>>, <<<<97>>, <<98, SP, 99>>>>, <<<<98, SP, 99>>, <<97>>>>}
 Rec3 == [L : StrLists, LS : {<<>>, <<x>>, <<x, <<121, SP, 122>>>>}, Sp : {<<>>, <<<<112>>>>, <<<<112>>, <<113>>>>},
          ReqL : {<<>>, <<<<114>>>>, <<<<114>>, <<115>>>>}, IL : {<<>>, <<1>>, <<0, -2>>}]
